@@ -106,6 +106,23 @@ class sut:
         ) from ev
 
 
+def run_check_fn(sub, case, ctx):
+    """``sub.check(case, ctx)``; an exception that escapes the check and was raised *inside the code under test*
+    (innermost traceback frame in the menelaus package, e.g. a public property read outside a ``sut`` block) is the
+    code's failure, not the harness's, and is reported like any other unexpected exception."""
+    try:
+        return sub.check(case, ctx)
+    except (Violation, HarnessError):
+        raise
+    except Exception as ev:
+        tb = traceback.extract_tb(ev.__traceback__)
+        fn = tb[-1].filename.replace("\\", "/") if tb else ""
+        if "/menelaus/" not in fn or "/vlib/" in fn:
+            raise
+        frame = fn.split("/menelaus/")[-1] + ":" + tb[-1].name
+        raise Violation("unexpected-exception", f"{type(ev).__name__}: {ev} @ {frame}", exc=type(ev).__name__, frame=frame) from ev
+
+
 class SubCheck:
     def __init__(
         self,
@@ -251,7 +268,7 @@ def _run_enum(res, sub, tier, seed, shard, nshards):
     for case in sub.enumerate(tier, shard, nshards):
         ctx = Ctx()
         try:
-            sub.check(case, ctx)
+            run_check_fn(sub, case, ctx)
         except Violation as v:
             vj = v.to_json()
             res["failure"] = {"case": vj.pop("case", None) or case, "violation": vj}
@@ -290,7 +307,7 @@ def _run_hyp(res, pid, sub, tier, seed, shard, nshards):
         case = jnorm(case)
         ctx = Ctx()
         try:
-            sub.check(case, ctx)
+            run_check_fn(sub, case, ctx)
         except Violation as v:
             st["fails"] += 1
             vj = v.to_json()
@@ -323,7 +340,7 @@ def replay_case(prop, sub_name, case, exclude_known=False):
     sub = next(s for s in prop["subchecks"] if s.name == sub_name)
     ctx = Ctx(exclude_known=exclude_known)
     try:
-        sub.check(jnorm(case), ctx)
+        run_check_fn(sub, jnorm(case), ctx)
     except Violation as v:
         vj = v.to_json()
         vj.pop("case", None)
